@@ -304,3 +304,55 @@ def rule_value_not_tested(db: ProgramDB) -> List[Instance]:
     if n_methods == 0:
         raise AnalysisError("no method reads the payload of a bound value")
     return out
+
+
+# ---------------------------------------------------------------------------------- BOUND-AGAIN-TRUTH
+def rule_bound_again_truth(db: ProgramDB) -> List[Instance]:
+    """An expression object can occur more than once in a condition (`f = v.flag; or_(f, and_(f, …))`).  The second time it
+    is evaluated it finds itself bound and hands the binding on - but its parent still reads its truth flag.  Every evaluation
+    generator that decides its own truth from a value it computes therefore sets the flag on that shortcut path too (from the
+    value it is bound to), instead of leaving whatever the flag held."""
+    from ..cfg import CFG
+    out = []
+    se = db.cls("SymbolicExpression")
+    n = 0
+    for c in sorted(se.all_subclasses(), key=lambda k: k.qualname):
+        m = c.methods.get("_evaluate__")
+        if m is None or not m.is_generator:
+            continue
+        # decides its own truth: assigns self._is_false_ a constant or something computed from locals (not another node's flag)
+        own = False
+        for a in own_nodes(m.node):
+            if isinstance(a, ast.Assign) and any(isinstance(t, ast.Attribute) and t.attr == "_is_false_" and isinstance(t.value, ast.Name)
+                                                 and t.value.id == "self" for t in a.targets):
+                if not any(isinstance(x, ast.Attribute) and x.attr == "_is_false_" for x in ast.walk(a.value)) and \
+                        not any(isinstance(x, ast.Call) for x in ast.walk(a.value)):
+                    own = True
+        if not own or c.is_subclass_of("BinaryOperator") and not c.is_subclass_of("Comparator") and c.name != "Comparator":
+            continue
+        cfg = CFG(m)
+        tests = [nd for nd in cfg.nodes if nd.kind == "test" and isinstance(nd.stmt, ast.If) and isinstance(nd.stmt.test, ast.Compare)
+                 and isinstance(nd.stmt.test.ops[0], ast.In) and unparse(nd.stmt.test.left) == "self._id_"]
+        for t in tests:
+            n += 1
+
+            def sets_flag(nd):
+                a = nd.ast
+                return nd.kind == "stmt" and isinstance(a, ast.Assign) and any(isinstance(x, ast.Attribute) and x.attr == "_is_false_"
+                                                                                 and isinstance(x.value, ast.Name) and x.value.id == "self" for x in a.targets)
+            bad = None
+            for e in cfg.succ[t.id]:
+                if e.kind == "n" and e.label == "T":
+                    first = cfg.nodes[e.dst]
+                    if sets_flag(first):
+                        continue
+                    p = cfg.find_path(first.id, lambda nd: nd.has_yield, kinds=("n",), blocked=sets_flag)
+                    if p is not None or first.has_yield:
+                        bad = first
+            out.append(inst("BOUND-AGAIN-TRUTH", VIOLATION if bad is not None else HOLDS, m, f"{m.short}[bound already]",
+                            "the binding is handed on without the truth flag being set: the parent reads what the flag held when the generator was "
+                            "entered, so a condition object used twice (f = v.flag; or_(f, and_(f, v.a > 1))) lets through objects for which it is false"
+                            if bad is not None else "the truth flag is set from the bound value before the binding is handed on", line=t.lineno))
+    if n == 0:
+        raise AnalysisError("no evaluation generator with a 'bound already' shortcut that decides its own truth found")
+    return out
